@@ -23,10 +23,10 @@ type Op struct {
 	Cut   int    `json:"cut"`
 	Fault string `json:"fault,omitempty"`
 	// Chunks is a read-size schedule for the scripted reader (nil = plain bytes.Reader).
-	Chunks []int `json:"chunks,omitempty"`
-	Trace  bool  `json:"trace,omitempty"` // record hook events
+	Chunks []int  `json:"chunks,omitempty"`
+	Trace  bool   `json:"trace,omitempty"` // record hook events
 	Level  string `json:"level,omitempty"`
-	Heavy  bool  `json:"heavy,omitempty"` // allow a long stall budget
+	Heavy  bool   `json:"heavy,omitempty"` // allow a long stall budget
 }
 
 // Obs is what the worker observed for one Op.
